@@ -232,6 +232,22 @@ def build_cases(tier, wd):
                      f"<msubsup>{a}{b}{c}</msubsup>", f"<munderover><mo>∑</mo>{a}{b}</munderover>", f"<mroot>{a}{b}</mroot>", f"<msub><mi>x</mi>{a}</msub>{b}",
                      f"<mtable><mtr><mtd>{a}</mtd><mtd>{b}</mtd></mtr></mtable>", f"<msqrt>{a}{b}</msqrt>"):
             cases.append({"mathml": f"<math>{body}</math>", "origin": "adjacent-wrappers", "idmode": "none", "spicy": True, "locale": None})
+    # every child list of an mmultiscripts: sequences of scripts, <none/>, empty rows and <mprescripts/> (in every position, also
+    # twice) of length <= 5 behind the base - the clean-up pairs scripts up and "repairs" misplaced separators by index arithmetic
+    kinds = ["<mi>a</mi>", "<none/>", "<mprescripts/>", "<mrow/>"]
+    for n in range(0, 6):
+        for combo in itertools.product(range(len(kinds)), repeat=n):
+            if tier == "quick" and n == 5 and (sum(combo) + len(cases)) % 4:
+                continue
+            k_ = [0]
+
+            def kid(c_):
+                if c_ == 0:
+                    k_[0] += 1
+                    return f"<mi>{'abcde'[k_[0] - 1]}</mi>"
+                return kinds[c_]
+            body = "<mmultiscripts><mi>x</mi>" + "".join(kid(c_) for c_ in combo) + "</mmultiscripts>"
+            cases.append({"mathml": f"<math>{body}<mo>+</mo><mn>1</mn></math>" if n % 2 else f"<math>{body}</math>", "origin": "mmultiscripts-children", "idmode": "none", "spicy": True, "locale": None})
     # runs of three and four adjacent wrappers whose attributes alternate (red blue red): merging wrappers with equal attributes must
     # not reach across one that differs (the content would change places)
     wraps = ["mstyle mathcolor='red'", "mstyle mathcolor='blue'", "mstyle", "mpadded width='1em'"]
